@@ -7,6 +7,7 @@ import (
 	"fmt"
 	"math"
 	"runtime"
+	"sort"
 	"sync"
 	"sync/atomic"
 	"time"
@@ -415,11 +416,13 @@ func streamReg(o opts) {
 }
 
 // ------------------------------------------------------------------ callbacks (C20)
+const sidCb = 20
+
 func streamCb(o opts) {
 	r := newRand(o.seed, "cb")
 	m := newMeta("cb", o.seed)
-	m.Rule = "SetWithCallback under a virtual cache clock (real timers only trigger the re-validation): for each scenario a callback is registered with TTL T, then one of {nothing, Delete, Clear, re-Set with later/earlier/no expiry, Delete+re-Set shorter, Delete+re-Set with the same TTL 1 us later, rewrite 2 us later, Close, failing write, non-expiring write} happens at virtual time < T, the clock is moved before/after the deadline and the real timer is awaited; callbacks re-enter the cache (Set/Get/Delete of their own key); non-trivial = scenario whose callback is expected to fire and does; distinct by scenario kind and policy"
-	must(nil)
+	m.Rule = "SetWithCallback under a virtual cache clock (real timers only trigger the re-validation): 14 directed scenarios (untouched, not yet due, Delete, Clear, re-Set with later / earlier / no expiry, Delete+re-Set shorter, Delete+re-Set with the same TTL 1 us later, rewrite 2 us later, Close, failing write, non-expiring write, two keys) with callbacks that re-enter the cache, then random call sequences over two keys (SetWithCallback / Set / Delete / Clear / clock advances / Close); every call is replayed on CallbackLts (each call thread run to completion, timers taking the closeCh case at Close and the timer case at the final clock) and the set of callbacks that ran is compared; non-trivial = scenario whose callback is expected to fire and does; distinct by scenario kind and policy"
+	w := newTraceWriter(o.out, "cb")
 	fired := func(ch chan [2]int, wait time.Duration) [][2]int {
 		var out [][2]int
 		deadline := time.After(wait)
@@ -434,100 +437,160 @@ func streamCb(o opts) {
 	}
 	for round := 0; round < o.n; round++ {
 		pol := pick(r, []kioshun.EvictionPolicy{kioshun.LRU, kioshun.LFU, kioshun.FIFO, kioshun.SieveTinyLFU})
-		kind := round % 14
+		kind := round % 20
+		if kind > 14 {
+			kind = 14 // random sequences
+		}
 		ctx := fmt.Sprintf("callback scenario %d policy %d", kind, pol)
 		kioshun.VerifSetClock(true, 1000)
 		c, err := kioshun.New[int, int](kioshun.Config{MaxSize: 8, ShardCount: 1, EvictionPolicy: pol})
 		must(err)
-		ch := make(chan [2]int, 16)
+		w.T(sidCb, ints(0, 1000))
+		ch := make(chan [2]int, 64)
 		var reent atomic.Int64
+		reentrant := kind < 14
 		cb := func(k, v int) {
-			// re-enter the cache on the callback's own key: must not deadlock
-			c.Get(k)
-			c.Set(k, -v, kioshun.NoExpiration)
-			c.Delete(k)
-			reent.Add(1)
+			if reentrant {
+				// re-enter the cache on the callback's own key: must not deadlock
+				c.Get(k)
+				c.Set(k, -v, kioshun.NoExpiration)
+				c.Delete(k)
+				reent.Add(1)
+			}
 			ch <- [2]int{k, v}
 		}
+		swc := func(k, v int, ttl time.Duration) error {
+			e := c.SetWithCallback(k, v, ttl, cb)
+			w.O(ints(1, int64(k), int64(v), int64(ttl)), &toks{})
+			return e
+		}
+		set := func(k, v int, ttl time.Duration) {
+			c.Set(k, v, ttl)
+			w.O(ints(3, int64(k), int64(v), int64(ttl)), &toks{})
+		}
+		del := func(k int) { c.Delete(k); w.O(ints(2, int64(k)), &toks{}) }
+		clr := func() { c.Clear(); w.O(ints(4), &toks{}) }
+		cls := func() { c.Close(); w.O(ints(5), &toks{}) }
+		adv := func(d int64) { kioshun.VerifAdvance(d); w.O(ints(6, d), &toks{}) }
 		const ttl = 20 * time.Millisecond // real delay of the timer; virtual deadline = 1000 + ttl
-		expect := false
+		expect, checkExpect := false, true
+		wait := 3*ttl + 20*time.Millisecond
 		watch(ctx)
 		switch kind {
 		case 0: // untouched, clock moved past the deadline: fires
-			c.SetWithCallback(1, 10, ttl, cb)
-			kioshun.VerifAdvance(int64(ttl) + 1)
+			swc(1, 10, ttl)
+			adv(int64(ttl) + 1)
 			expect = true
 		case 1: // untouched but the clock never passes the deadline: must not fire (not early)
-			c.SetWithCallback(1, 10, ttl, cb)
-			kioshun.VerifAdvance(int64(ttl) - 1)
+			swc(1, 10, ttl)
+			adv(int64(ttl) - 1)
 		case 2: // deleted
-			c.SetWithCallback(1, 10, ttl, cb)
-			c.Delete(1)
-			kioshun.VerifAdvance(int64(ttl) + 1)
+			swc(1, 10, ttl)
+			del(1)
+			adv(int64(ttl) + 1)
 		case 3: // cleared
-			c.SetWithCallback(1, 10, ttl, cb)
-			c.Clear()
-			kioshun.VerifAdvance(int64(ttl) + 1)
+			swc(1, 10, ttl)
+			clr()
+			adv(int64(ttl) + 1)
 		case 4: // rewritten with a later expiry
-			c.SetWithCallback(1, 10, ttl, cb)
-			c.Set(1, 11, 10*ttl)
-			kioshun.VerifAdvance(int64(ttl) + 1)
+			swc(1, 10, ttl)
+			set(1, 11, 10*ttl)
+			adv(int64(ttl) + 1)
 		case 5: // rewritten with no expiry
-			c.SetWithCallback(1, 10, ttl, cb)
-			c.Set(1, 11, kioshun.NoExpiration)
-			kioshun.VerifAdvance(int64(ttl) + 1)
+			swc(1, 10, ttl)
+			set(1, 11, kioshun.NoExpiration)
+			adv(int64(ttl) + 1)
 		case 6: // deleted, then re-set with a shorter TTL (finding F11, fixed)
-			c.SetWithCallback(1, 10, ttl, cb)
-			c.Delete(1)
-			c.Set(1, 11, ttl/4)
-			kioshun.VerifAdvance(int64(ttl) + 1)
+			swc(1, 10, ttl)
+			del(1)
+			set(1, 11, ttl/4)
+			adv(int64(ttl) + 1)
 		case 7: // closed before the timer elapses
-			c.SetWithCallback(1, 10, ttl, cb)
-			c.Close()
-			kioshun.VerifAdvance(int64(ttl) + 1)
+			swc(1, 10, ttl)
+			cls()
+			adv(int64(ttl) + 1)
 		case 8: // entry that never expires schedules nothing
-			c.SetWithCallback(1, 10, kioshun.NoExpiration, cb)
-			kioshun.VerifAdvance(int64(time.Hour))
+			swc(1, 10, kioshun.NoExpiration)
+			adv(int64(time.Hour))
 		case 9: // two registrations on two keys: each fires once with its own key and value
-			c.SetWithCallback(1, 10, ttl, cb)
-			c.SetWithCallback(2, 20, ttl, cb)
-			kioshun.VerifAdvance(int64(ttl) + 1)
+			swc(1, 10, ttl)
+			swc(2, 20, ttl)
+			adv(int64(ttl) + 1)
 			expect = true
+		case 10: // failing write (closed cache) schedules nothing
+			cls()
+			if e := swc(1, 10, ttl); e == nil {
+				m.violate("C20", ctx+": SetWithCallback succeeded on a closed cache", ctx)
+			}
+			adv(int64(ttl) + 1)
 		case 11: // deleted and re-set with the SAME ttl one microsecond later: another deadline, must not fire
-			c.SetWithCallback(1, 10, ttl, cb)
-			kioshun.VerifAdvance(1000)
-			c.Delete(1)
-			c.Set(1, 11, ttl)
-			kioshun.VerifAdvance(int64(ttl) + 2000)
+			swc(1, 10, ttl)
+			adv(1000)
+			del(1)
+			set(1, 11, ttl)
+			adv(int64(ttl) + 2000)
 		case 12: // rewritten in place with an expiry two microseconds later
-			c.SetWithCallback(1, 10, ttl, cb)
-			c.Set(1, 11, ttl+2*time.Microsecond)
-			kioshun.VerifAdvance(int64(ttl) + 5000)
+			swc(1, 10, ttl)
+			set(1, 11, ttl+2*time.Microsecond)
+			adv(int64(ttl) + 5000)
 		case 13: // the stored deadline is exactly now+ttl (no rounding): GetWithTTL reports ttl, and the callback is not early by a tick
-			c.SetWithCallback(1, 10, ttl, cb)
+			swc(1, 10, ttl)
 			if _, rem, ok := c.GetWithTTL(1); !ok || rem != ttl {
 				m.violate("C20", fmt.Sprintf("%s: SetWithCallback(ttl=%v) at a frozen clock stores remaining %v", ctx, ttl, rem), ctx)
 			}
-			kioshun.VerifAdvance(int64(ttl) - 1)
-		case 10: // failing write (closed cache) schedules nothing
-			c.Close()
-			if e := c.SetWithCallback(1, 10, ttl, cb); e == nil {
-				m.violate("C20", ctx+": SetWithCallback succeeded on a closed cache", ctx)
+			adv(int64(ttl) - 1)
+		case 14: // random call sequence over two keys; the model decides what may fire
+			checkExpect = false
+			val := 10
+			ttls := []time.Duration{ttl, 2 * ttl, ttl + 3*time.Microsecond, kioshun.NoExpiration, 0}
+			closedNow := false
+			for i, n := 0, 3+r.Intn(8); i < n; i++ {
+				k := 1 + r.Intn(2)
+				val++
+				switch x := r.Intn(100); {
+				case x < 35:
+					swc(k, val, pick(r, ttls))
+				case x < 55:
+					set(k, val, pick(r, ttls))
+				case x < 70:
+					del(k)
+				case x < 76:
+					clr()
+				case x < 96:
+					adv(pick(r, []int64{1, 1000, int64(ttl) / 2, int64(ttl) - 1, int64(ttl), int64(ttl) + 1, 2*int64(ttl) + 1}))
+				default:
+					if !closedNow {
+						cls()
+						closedNow = true
+					}
+				}
 			}
-			kioshun.VerifAdvance(int64(ttl) + 1)
+			adv(pick(r, []int64{0, 1, int64(ttl) + 1, 3 * int64(ttl)}))
+			wait = 5*ttl + 20*time.Millisecond
 		}
-		got := fired(ch, 3*ttl+20*time.Millisecond)
+		got := fired(ch, wait)
 		seen := map[[2]int]int{}
 		for _, x := range got {
 			seen[x]++
 			if seen[x] > 1 {
 				m.violate("C20", fmt.Sprintf("%s: callback for (%d,%d) ran %d times", ctx, x[0], x[1], seen[x]), ctx)
 			}
-			if (x[0] == 1 && x[1] != 10) || (x[0] == 2 && x[1] != 20) {
+			if kind < 14 && ((x[0] == 1 && x[1] != 10) || (x[0] == 2 && x[1] != 20)) {
 				m.violate("C20", fmt.Sprintf("%s: callback received (%d,%d), not the key and value of its own call", ctx, x[0], x[1]), ctx)
 			}
 		}
-		if !expect && len(got) > 0 {
+		sort.Slice(got, func(a, b int) bool {
+			if got[a][0] != got[b][0] {
+				return got[a][0] < got[b][0]
+			}
+			return got[a][1] < got[b][1]
+		})
+		obs := &toks{}
+		for _, x := range got {
+			obs.I(int64(x[0]), int64(x[1]))
+		}
+		w.O(ints(7), obs)
+		if checkExpect && !expect && len(got) > 0 {
 			m.violate("C20", fmt.Sprintf("%s: callback fired %v although it must not (deleted / cleared / refreshed / not yet due / closed / nothing to schedule)", ctx, got), ctx)
 		}
 		if expect {
@@ -541,12 +604,16 @@ func streamCb(o opts) {
 				m.count("expected_callback_missing")
 			}
 		}
+		if kind == 14 && len(got) > 0 {
+			m.nontrivial(fmt.Sprintf("rand/p%d/%d", pol, len(got)))
+		}
 		c.Close()
 		unwatch()
 		m.count(fmt.Sprintf("scenario_%d", kind))
 	}
 	kioshun.VerifSetClock(false, 0)
-	m.Traces, m.Ops = o.n, o.n*4
+	w.Close()
+	m.Traces, m.Ops = w.traces, w.ops
 	m.sample("SetWithCallback(1,10,20ms); Delete(1); Set(1,11,5ms); clock past both deadlines -> no callback")
 	m.write(o.out)
 }
